@@ -65,8 +65,13 @@ pub trait TokenReleaseModule: config::ConfigModule {
             "Wrong vesting release recurrency"
         );
 
-        let unlock_percentage =
-            initial_release_percentage + vesting_release_times * vesting_release_percentage;
+        let unlock_percentage = match vesting_release_times
+            .checked_mul(vesting_release_percentage)
+            .and_then(|vested| vested.checked_add(initial_release_percentage))
+        {
+            Some(percentage) => percentage,
+            None => sc_panic!("Unlock percentage is not 100%"),
+        };
 
         require!(
             unlock_percentage == MAX_PERCENTAGE,
